@@ -39,7 +39,10 @@ class TsGen:
             return {"k": "null"}
         if ty["k"] == "list":
             if r.chance(1, 4):
-                return self.lit(ty["of"], depth + 1, False)          # a single value is coerced to a list of one
+                inner = ty                                            # a single NON-LIST value is coerced to a (nested) list of one
+                while inner["k"] != "named":
+                    inner = inner["of"]
+                return self.lit(inner, depth + 1, False)
             return {"k": "list", "vs": [self.lit(ty["of"], depth + 1) for _ in range(r.below(3))]}
         n = ty["n"]
         if n == "Int":
@@ -99,7 +102,7 @@ class TsGen:
     def wrap(self, n, allow_list=True):
         r = self.r
         t = N(n)
-        k = r.below(8)
+        k = r.below(12)
         if not allow_list:
             k = k % 2
         if k == 1:
@@ -114,6 +117,14 @@ class TsGen:
             t = NN(L(t))
         elif k == 6:
             t = L(L(t))
+        elif k == 7:
+            t = NN(L(L(NN(t))))          # [[T!]]!
+        elif k == 8:
+            t = L(NN(L(NN(t))))          # [[T!]!]
+        elif k == 9:
+            t = NN(L(NN(L(L(t)))))       # [[[T]]!]!
+        elif k == 10:
+            t = L(NN(L(t)))              # [[T]!]
         return t
 
     def argdefs(self, layer_max, n=None, input_names=None):
